@@ -216,6 +216,11 @@ func literalOnly(w ast.Word) bool {
 
 func checkC08(c c08Case) error {
 	cmds, _, err := parser.ParseCommands(nil, "c08", c.Src)
+	if err != nil && strings.Contains(err.Error(), "here-document") {
+		// every generated here-document has its delimiter line: a complaint
+		// about one means a delimiter line was not recognised
+		return fmt.Errorf("a here-document of a well-formed command is not recognised: %v\nsrc: %q", err, c.Src)
+	}
 	if err != nil {
 		return fmt.Errorf("harness: source not accepted: %v\nsrc: %q", err, c.Src)
 	}
